@@ -76,6 +76,10 @@ func init() {
 			a.headerIsReceived("L.header-raw")
 			a.eventsDelivered("P.events-delivered")
 			a.plaintextProducers("P.unencrypted-flag")
+			a.textIdentity("K.text-identity")
+			a.sentTextIdentity("K.text-identity")
+			// "the authenticated peer": the keys messages are checked with are installed only by a verified exchange
+			a.c01Gates()
 			a.resendKeepsCopy("S.plaintext-retention")
 			a.c09Forget()
 		})
